@@ -159,6 +159,17 @@ Theorem C11_never_misdispatched :
      (k = B "stream" /\ is_infix RECORDSTREAM_MAGIC (firstn (List.length stream_header_frame) d) = true)).
 Proof. intros e peek compress decompress R parse HE. exact (read_fileobj_sound_pk the_facts eq_refl e peek compress decompress R parse HE). Qed.
 
+(* the SPELLING of "standard input / no url" is not an input of the decision: omitted or None, "" and "-" normalise to one
+   and the same source (whose codec and container are sniffed: read_source SrcStream = read_fileobj), any other url stays a url *)
+Theorem C11_stdin_spelling_irrelevant :
+  (forall u, In u [None; Some []; Some (B "-")] -> normalise_source the_facts u = SrcStream) /\
+  (forall x, x <> [] -> x <> B "-" -> normalise_source the_facts (Some x) = SrcUrl x) /\
+  (forall (e : env) peek decompress (R : Type) (parse : bytes -> bytes -> R) bs,
+     read_source the_facts e peek decompress R parse SrcStream bs = read_fileobj the_facts e peek decompress R parse bs).
+Proof.
+  exact (conj (normalise_no_url the_facts eq_refl) (conj (normalise_url the_facts eq_refl) (fun _ _ _ _ _ _ => eq_refl))).
+Qed.
+
 (* for paths the container follows the extension (os.path.splitext) or the URL scheme *)
 Theorem C11_path_container_by_extension : forall p, is_infix (B "://") p = false ->
   adapter_for_url the_facts p =
